@@ -108,11 +108,13 @@ theorem C03_max_order_step {s : HG} (h : SCInv s) (hf : s.frozen = false) (op : 
     ∀ f ∈ (step s op).1.edges, (f ∈ s.edges ∧ (step s op).1.mem f = s.mem f) ∨ ((step s op).1.mem f).length ≤ k + 1 := by
   have hs : step s op = stepCore s op := by unfold step; simp [hf]
   rw [hs]
+  have hg : ∀ r : HG × Outcome, (deprecated (HG.guardF s r)).1 = r.1 := by
+    intro r; unfold HG.guardF; simp [hf, deprecated]
   rcases hop with ⟨fmt, items, a, hh, rfl | rfl⟩ | ⟨items, a, hh, rfl | rfl⟩
   · exact addSimplicesFrom_bnd h fmt items k a hh
-  · exact addSimplicesFrom_bnd h fmt items k a hh
+  · simp only [stepCore, hg]; exact addSimplicesFrom_bnd h fmt items k a hh
   · exact addSimplicesFrom_bnd h .f3 items k a hh
-  · exact addSimplicesFrom_bnd h .f3 items k a hh
+  · simp only [stepCore, hg]; exact addSimplicesFrom_bnd h .f3 items k a hh
 
 /-- `has_simplex` answers membership exactly: true iff some simplex has that node set
     (as a set: order and repetitions in the argument do not matter) -/
